@@ -11,8 +11,11 @@ META = {
     "level": "proof",
     "technique": "Coq theorems over an executable store model of gerror.CloneBase and the 19 Factory "
                  "methods (all chains, all arguments, closed forms for message/tag/source/stack, store "
-                 "only grows) + wiring table regenerated from gerror.go by a go/ast translator and "
-                 "checked equal to the model's by eq_refl + in-kernel correspondence of model, closed-"
+                 "only grows; access trace at field granularity DERIVED from an instrumented copy of "
+                 "CloneBase with an erasure theorem; memory-level model of the laterSrcErrors slice: "
+                 "no derived error shares mutable backing storage) + CloneBase and FactoryOf themselves "
+                 "translated go/ast -> Gallina on every run and proved equal to the model for all "
+                 "arguments (semantic tie), wiring table regenerated from gerror.go + in-kernel correspondence of model, closed-"
                  "form spec and the real package on generated chains; concurrent variant under the "
                  "race detector in the thorough tier",
     "design_ref": "DESIGN.md §4 C15",
@@ -24,12 +27,21 @@ META = {
                   "source wins and is never overwritten, a source is derived by every step but Base, "
                   "and the stack is the one made by the first stack-taking step (Props/C15.v, closed "
                   "under the global context). The model is tied to the current source by regenerating "
-                  "the per-method argument wiring from gerror.go (tie by eq_refl) and by running the "
+                  "the per-method argument wiring from gerror.go (tie by computation), by translating "
+                  "CloneBase and FactoryOf from factory.go to Gallina (go/ast) and proving the result equal "
+                  "to clone_base / factory_of for all arguments (a write to an existing object is "
+                  "untranslatable; appends to laterSrcErrors must be capacity-clipped), and by running the "
                   "real package on generated chains (0-8 steps, Unicode/blank/format-verb arguments, "
                   "four kinds of call site) and judging every observation inside Coq against both the "
                   "model and the closed-form spec. PARTIAL: data-race freedom is runtime behaviour; it "
                   "is exercised, not proved: the same chains run from 16 goroutines on shared package-"
-                  "level factories, under the race detector in the thorough tier.",
+                  "level factories, under the race detector (both tiers; a missing C compiler is reported as "
+                  "unchecked). What the model carries of that clause: the access trace of a derivation, "
+                  "derived from an instrumented CloneBase whose erasure is clone_base, writes only the "
+                  "freshly allocated object (C15_trace_erasure, C15_trace_local, C15_race_free_model, "
+                  "C15_race_free_full), and with the capacity-clipped append no derived error ever writes "
+                  "a slot of a backing array another error can see (C15_later_contents_stable, "
+                  "C15_later_no_shared_slot_write; C15_later_unclipped_refuted for the unclipped form).",
     "level_note": "Trusted: Coq 8.16.1 kernel + vm_compute; hand-written model of CloneBase (fidelity "
                   "checked by correspondence and the wiring tie, not proved); fmt.Sprintf (formatted "
                   "strings enter the model already formatted); runtime.Callers/FuncForPC (derived "
@@ -41,7 +53,7 @@ META = {
 
 TRUSTED = [
     "Coq 8.16.1 kernel and VM (vm_compute); no native_compute; no axioms (Print Assumptions: closed under the global context)",
-    "hand-written model coq/theories/GErrModel.v (clone_base, call) of gerror/factory.go CloneBase and gerror/gerror.go; tied by correspondence and, for the per-method argument wiring, by the translator harness/cmd/xlate_gerr_wiring (go/ast) with an eq_refl tie",
+    "hand-written model coq/theories/GErrModel.v (clone_base, call) of gerror/factory.go CloneBase and gerror/gerror.go; tied by correspondence and, by the translator harness/cmd/xlate_gerr_wiring (go/ast): per-method argument wiring (tie by computation) and CloneBase/FactoryOf as Gallina functions with semantic tie lemmas (forall arguments, gen = model; coq/theories/GErrTie.v)",
     "fmt.Sprintf: the formatted extension text is recorded from the real fmt and enters the model already formatted",
     "runtime.Callers / FuncForPC: the derived source of a call site and the identity of the call that made a stack are oracle values; the harness computes the expected ones from its own rule (package:receiver:function of the calling frame), independent of gerror's stack.go",
     "strings as lists of code points (valid UTF-8 only); strings.TrimSpace modelled as trim_space over unicode.IsSpace's code points",
@@ -107,6 +119,16 @@ def run(ctx):
         # search for a failing input
         rp.defer("tie T: wiring table regenerated from gerror/gerror.go differs from GErrModel.base_wiring",
                  getattr(ctx, "tie_broken", ""), "tie")
+    # (T) CloneBase and FactoryOf themselves: go/ast -> Gallina, proved equal to clone_base /
+    # factory_of for all arguments; a write to an existing object is untranslatable; every append to
+    # a slice taken from an existing object must be capacity-clipped (C15_later_* theorems)
+    ft = gl.tie_functions(ctx)
+    ctx.cov["tie_T_functions"] = {k: ft.get(k) for k in ("ok", "variant", "appends_clipped", "lemmas")}
+    mine = [l for l in (ft.get("failed") or []) if l not in ("tie_is", "tie_unwrap", "tie_extract")]   # those three are C06's
+    if mine:
+        rp.defer("tie T: CloneBase / FactoryOf translated from gerror/factory.go (go/ast -> Gallina) are not provably equal "
+                 "to GErrModel.clone_base / factory_of, or an append to laterSrcErrors is not capacity-clipped",
+                 "broken: %s\n%s" % (", ".join(mine), ft.get("detail", "")), "tie")
     binp, log = ctx.build_harness("c15")
     if not binp:
         rp.defer("harness build against the current tree", log, "build")
@@ -137,6 +159,10 @@ def run(ctx):
         rp.flush()
         return
     if conc is not None:
+        if not conc.get("race_detector"):
+            # the plain binary ran, the race detector did not: say so instead of passing silently
+            rp.defer("race detector run not possible: the data-race clause was not exercised",
+                     conc.get("race_build_error", ""), "race_unavailable")
         if conc.get("mismatches") or conc.get("factory_changed") or conc.get("races"):
             rp.failing({"concurrent_run": conc,
                         "verdict": "concurrent derivation differs from sequential derivation, changed a factory, or raced",
@@ -217,18 +243,20 @@ def judge_and_report(ctx, rp, binp, terms, jsons, quick, tag, only_v1=False):
 
 def run_conc(ctx, binp, quick):
     """the concurrent variant, with the race-detector binary when cgo is usable (both tiers;
-    thorough runs many more chains and rounds)"""
+    thorough runs many more chains and rounds).  When the -race binary cannot be built the plain
+    binary still runs (the sequential-vs-concurrent comparison stays useful) but the returned
+    info says race_detector: False (+ race_build_error) and the caller reports the data-race
+    clause as unchecked."""
     info = {"race_detector": False}
     cbin = binp
-    if True:
-        if shutil.which("gcc") or shutil.which("cc"):
-            rb, log = ctx.build_harness("c15", race=True)
-            if rb:
-                cbin, info["race_detector"] = rb, True
-            else:
-                info["race_build_error"] = log[-600:]
+    if shutil.which("gcc") or shutil.which("cc") or shutil.which("clang"):
+        rb, log = ctx.build_harness("c15", race=True)
+        if rb:
+            cbin, info["race_detector"] = rb, True
         else:
-            info["race_build_error"] = "no C compiler: -race needs cgo"
+            info["race_build_error"] = "go build -race failed:\n" + (log or "")[-600:]
+    else:
+        info["race_build_error"] = "no C compiler (gcc/cc/clang) on PATH: go build -race needs cgo"
     prefix = os.path.join(ctx.scratch, "cases_conc")
     args = [cbin, "-seed", str(ctx.seed), "-out", prefix, "-mode", "conc",
             "-n", "120" if quick else "600", "-rounds", "2" if quick else "6"]
